@@ -583,6 +583,14 @@ def refinement(ctx, im, ncases, nmax):
         else:
             target = dt / r if route == 'interp_array_to_approx_dt' else dt / (r - rng.uniform(0.2, 0.8))
             snap = a.copy()
+            ge = call_impl(im.time_step.interp_array_to_approx_dt, a, dt, target)        # default even=True
+            if ge[0] == 'ok':
+                ve, dte = ge[1]
+                ke = int(round(dt / dte))
+                keep = np.asarray(ve)[::ke][:len(a)]
+                ctx.oracle('C02.e refinement through interp_array_to_approx_dt (default even=True): the original samples reappear at their instants',
+                           abs(dt / dte - ke) < 1e-9 and np.array_equal(keep, np.asarray(a, dtype=float)[:len(keep)]) and len(keep) >= len(a) - 1,
+                           {**inp, 'target_dt': target}, detail={'factor': dt / dte, 'n_out': len(ve), 'n_in': len(a)})
             g = call_impl(im.time_step.interp_array_to_approx_dt, a, dt, target, even=False)
             if g[0] != 'ok':
                 ctx.oracle('interp_array_to_approx_dt returns on its domain', False, {**inp, 'target_dt': target}, detail=g)
